@@ -127,28 +127,29 @@ type Stats struct {
 
 // Sim is one simulated run.
 type Sim struct {
-	mu       sync.Mutex
-	cfg      Config
-	ch       *Choices
-	tasks    []*task
-	newborn  []*task
-	byGoid   map[uint64]*task
-	rootGoid uint64
-	arrive   chan struct{}
-	step     uint64 // real scheduling steps
-	clock    uint64 // strictly increasing sequence number: scheduling steps, fast yields and log entries
-	fastRun  int
-	cur      *task
-	mainDone bool
-	killed   bool
-	events   []Event
-	stats    Stats
-	pairs    map[uint64]struct{}
-	trace    uint64
-	probes   map[string]uint64
-	hooks    []stepHook
-	pctPts   map[uint64]bool
-	delayKey uint64
+	mu         sync.Mutex
+	cfg        Config
+	ch         *Choices
+	tasks      []*task
+	newborn    []*task
+	byGoid     map[uint64]*task
+	rootGoid   uint64
+	arrive     chan struct{}
+	step       uint64 // real scheduling steps
+	clock      uint64 // strictly increasing sequence number: scheduling steps, fast yields and log entries
+	fastRun    int
+	atomicGoid uint64
+	cur        *task
+	mainDone   bool
+	killed     bool
+	events     []Event
+	stats      Stats
+	pairs      map[uint64]struct{}
+	trace      uint64
+	probes     map[string]uint64
+	hooks      []stepHook
+	pctPts     map[uint64]bool
+	delayKey   uint64
 	// TraceOut, when non-nil, receives one line per scheduling step (replay rendering).
 	TraceOut *[]string
 	start    time.Time
@@ -261,13 +262,28 @@ func Yield(site string) {
 		return
 	}
 	g := goid()
-	if g == s.rootGoid {
+	if g == s.rootGoid || g == atomic.LoadUint64(&s.atomicGoid) {
 		return
 	}
 	if s.fast && s.fastYield(g, site) {
 		return
 	}
 	s.park(g, site, nil, nil)
+}
+
+// Atomic runs fn on the calling task without scheduling points (yields return at once). For long,
+// purely sequential computations inside a run (e.g. ten million evaluations of a rate function) where
+// interleaving adds nothing; blocking operations inside fn still work as usual.
+func Atomic(fn func()) {
+	s := active.Load()
+	if s == nil {
+		fn()
+		return
+	}
+	g := goid()
+	prev := atomic.SwapUint64(&s.atomicGoid, g)
+	defer atomic.StoreUint64(&s.atomicGoid, prev)
+	fn()
 }
 
 // fastYield decides, in the running task itself, to keep running without a round trip through the
